@@ -1,6 +1,7 @@
 package props
 
 import (
+	"go/types"
 	"fmt"
 	"go/token"
 	"sort"
@@ -74,6 +75,29 @@ func runC36(c *Ctx) {
 			ok = ssau.IsFieldOf(ssau.Unwrap(call.Common().Args[0]), "Request", "RemoteAddr")
 		}
 		c.R.Check("G2-access", "clientAllowed|address = r.RemoteAddr", ok, c.pos(ca.Pos()), "the filtered address is the connection's remote address (not a header)")
+		// nothing the client can put into the request (headers, URL, body) flows into the tested address
+		fromClient := ""
+		for _, i := range ssau.Ifs(ca) {
+			x, _ := ssau.StripNot(i.Cond)
+			tested := false
+			if cl, isCall := x.(*ssa.Call); isCall && (methodCallNamed(cl, "IsLoopback") || methodCallNamed(cl, "Equal")) {
+				tested = true
+			}
+			if b, isBin := x.(*ssa.BinOp); isBin && (b.Op == token.EQL || b.Op == token.NEQ) {
+				if bt, isBasic := b.X.Type().Underlying().(*types.Basic); isBasic && bt.Info()&types.IsString != 0 {
+					tested = true
+				}
+			}
+			if !tested {
+				continue
+			}
+			for _, fld := range []string{"Header", "URL", "Body", "Form", "PostForm", "Trailer"} {
+				if ssau.DependsOn(x, func(y ssa.Value) bool { return ssau.IsFieldOf(y, "Request", fld) }) {
+					fromClient = "Request." + fld + " at " + c.posOf(i)
+				}
+			}
+		}
+		c.R.Check("G2-access", "clientAllowed|address not taken from client-supplied request data", fromClient == "", c.pos(ca.Pos()), "an address comparison of the IP filter depends on "+fromClient+": a remote client chooses that value")
 	}
 	if au := c.fn(hp, "", "checkAuth"); au != nil {
 		ctc := func(cm *ssa.CallCommon) bool {
